@@ -627,4 +627,11 @@ def rule_e(ctx):
             why or 'the table is written only after stream_id == 0 was refused (%d paths)' % n)
 
 
-RULES = [('C13.a', rule_a), ('C13.b', rule_b), ('C13.c', rule_c), ('C13.d', rule_d), ('C13.d+C13.e', rule_e), ('C13.f', rule_f), ('C13.g', rule_g)]
+
+def rule_error_conversion(ctx):
+    """REJECTED for a stream id in use reaches the peer as REJECTED: the conversion keeps the protocol error's code (shared C12.l)."""
+    from .c12 import rule_error_conversion as conv
+    conv(ctx, 'C12.l')
+
+
+RULES = [('C13.a', rule_a), ('C13.b', rule_b), ('C13.c', rule_c), ('C13.d', rule_d), ('C13.d+C13.e', rule_e), ('C13.f', rule_f), ('C13.g', rule_g), ('C12.l', rule_error_conversion)]
